@@ -1,2 +1,3 @@
 pub mod common;
 pub mod props;
+pub mod space;
